@@ -22,22 +22,23 @@ import (
 const stallBound = 10 * time.Second
 
 type caseSpec struct {
-	Cfg        fx.Cfg
-	Source     string // engine.Stop, pkg.Stop, OnOpen, OnTraffic, OnClose, OnTick, Wake, OnBoot, client.Stop
-	Idle       int    // idle connections open at shutdown
-	Streams    int    // connections whose peer keeps sending
-	Pending    int    // connections with unsent outbound data (peer not reading)
-	Dialers    int    // goroutines connecting continuously
-	Asyncers   int    // goroutines issuing AsyncWrite/Wake continuously
-	TickUs     int    // OnTick interval; TickBusyUs: time spent inside OnTick
-	TickBusyUs int
-	DelayUs    int // between activity start and the shutdown request
-	Backlog    int // async requests queued behind a busy loop right before the request (Wake/OnTick sources)
+	Cfg               fx.Cfg
+	Source            string // engine.Stop, pkg.Stop, OnOpen, OnTraffic, OnClose, OnTick, Wake, OnBoot, client.Stop
+	Idle              int    // idle connections open at shutdown
+	Streams           int    // connections whose peer keeps sending
+	Pending           int    // connections with unsent outbound data (peer not reading)
+	Dialers           int    // goroutines connecting continuously
+	Asyncers          int    // goroutines issuing AsyncWrite/Wake continuously
+	TickUs            int    // OnTick interval; TickBusyUs: time spent inside OnTick
+	TickBusyUs        int
+	DelayUs           int  // between activity start and the shutdown request
+	Backlog           int  // async requests queued behind a busy loop right before the request (Wake/OnTick sources)
+	CloseSaysShutdown bool // every OnClose returns Shutdown (also those invoked by the shutdown sweep itself)
 }
 
 func (c caseSpec) String() string {
-	return fmt.Sprintf("cfg: %s\n source=%s idle=%d streams=%d pending=%d dialers=%d asyncers=%d tick=%dus busy=%dus delay=%dus backlog=%d",
-		c.Cfg, c.Source, c.Idle, c.Streams, c.Pending, c.Dialers, c.Asyncers, c.TickUs, c.TickBusyUs, c.DelayUs, c.Backlog)
+	return fmt.Sprintf("cfg: %s\n source=%s idle=%d streams=%d pending=%d dialers=%d asyncers=%d tick=%dus busy=%dus delay=%dus backlog=%d onCloseReturnsShutdown=%v",
+		c.Cfg, c.Source, c.Idle, c.Streams, c.Pending, c.Dialers, c.Asyncers, c.TickUs, c.TickBusyUs, c.DelayUs, c.Backlog, c.CloseSaysShutdown)
 }
 
 type session struct {
@@ -105,6 +106,10 @@ func (c *cstate) OnTraffic(gc gnet.Conn) gnet.Action {
 	if c.s.shouldFire("OnTraffic") || (c.s.wakeTarget == c && c.s.shouldFire("Wake")) {
 		return gnet.Shutdown
 	}
+	if c.s.shouldFire("OnTraffic+close") {
+		_ = gc.EventLoop().Close(gc) // the handler closes its own connection and then asks for the shutdown
+		return gnet.Shutdown
+	}
 	return gnet.None
 }
 
@@ -114,6 +119,9 @@ func (c *cstate) OnClose(gc gnet.Conn, err error) gnet.Action {
 	close(c.closedCh)
 	if c.s.shouldFire("OnClose") {
 		return gnet.Shutdown
+	}
+	if c.s.cs.CloseSaysShutdown && atomic.LoadInt32(&c.s.trigger) >= 1 {
+		return gnet.Shutdown // once the shutdown has been requested, every OnClose asks for it again
 	}
 	return gnet.None
 }
@@ -336,7 +344,7 @@ func run(cs caseSpec) (fails, stalls []string, infra string, nt bool) {
 		close(stopRet)
 	case "OnOpen":
 		go func() { open("opener"); close(stopRet) }()
-	case "OnTraffic":
+	case "OnTraffic", "OnTraffic+close":
 		if target != nil {
 			peerMu.Lock()
 			_, _ = peers[0].Write([]byte{1})
@@ -475,9 +483,9 @@ func drawCase(t *rapid.T) caseSpec {
 	if !cs.Cfg.Client && rapid.IntRange(0, 3).Draw(t, "rotate") == 0 {
 		cs.Cfg.Listeners = rapid.IntRange(2, 3).Draw(t, "listeners")
 	}
-	srcs := []string{"engine.Stop", "engine.Stop", "pkg.Stop", "OnOpen", "OnTraffic", "OnClose", "OnTick", "Wake", "OnBoot"}
+	srcs := []string{"engine.Stop", "engine.Stop", "pkg.Stop", "OnOpen", "OnTraffic", "OnTraffic+close", "OnClose", "OnTick", "Wake", "OnBoot"}
 	if cs.Cfg.Client {
-		srcs = []string{"client.Stop", "client.Stop", "OnTraffic", "OnClose", "Wake", "OnTick"}
+		srcs = []string{"client.Stop", "client.Stop", "OnTraffic", "OnTraffic+close", "OnClose", "Wake", "OnTick"}
 	}
 	cs.Source = rapid.SampledFrom(srcs).Draw(t, "source")
 	if cs.Source == "OnTick" {
@@ -494,7 +502,8 @@ func drawCase(t *rapid.T) caseSpec {
 	cs.Idle = rapid.IntRange(0, maxIdle).Draw(t, "idle")
 	cs.Streams = rapid.IntRange(0, 3).Draw(t, "streams")
 	cs.Pending = rapid.IntRange(0, 2).Draw(t, "pending")
-	if cs.Source == "OnTraffic" || cs.Source == "OnClose" || cs.Source == "Wake" {
+	cs.CloseSaysShutdown = rapid.IntRange(0, 3).Draw(t, "closeSaysShutdown") == 0
+	if cs.Source == "OnTraffic" || cs.Source == "OnTraffic+close" || cs.Source == "OnClose" || cs.Source == "Wake" {
 		if cs.Idle == 0 {
 			cs.Idle = 1
 		}
